@@ -108,7 +108,14 @@ def generate(repo, outdir):
     os.makedirs(os.path.join(outdir, '.cargo'), exist_ok=True)
     with open(os.path.join(outdir, '.cargo/config.toml'), 'w') as f:
         f.write('[net]\noffline = true\n')
-    shutil.copy(os.path.join(VERIF, 'harness/clif/lib_head.rs'), os.path.join(outdir, 'src/lib.rs'))
+    # structural fact for the stub's name model: the templates of the `let name = format!(...)` statements (symbol
+    # registration in new(), import in build_function_prelude) - do they all agree?
+    name_tmpls = re.findall(r'let\s+name\s*=\s*format!\(\s*("(?:[^"\\]|\\.)*")\s*,', s.src)
+    agree = len(name_tmpls) >= 2 and len(set(name_tmpls)) == 1
+    with open(os.path.join(VERIF, 'harness/clif/lib_head.rs')) as f:
+        head = f.read()
+    with open(os.path.join(outdir, 'src/lib.rs'), 'w') as f:
+        f.write(head + '\n/// extractor: templates of the helper symbol names in cranelift.rs: %s\npub const HELPER_NAME_TEMPLATES_AGREE: bool = %s;\n' % (', '.join(name_tmpls) or 'none found', 'true' if agree else 'false'))
     shutil.copy(os.path.join(VERIF, 'spec/arith_uf.rs'), os.path.join(outdir, 'src/arith.rs'))
     shutil.copy(os.path.join(VERIF, 'spec/ebpf_sem.rs'), os.path.join(outdir, 'src/spec.rs'))
     shutil.copy(os.path.join(repo, 'src/ebpf.rs'), os.path.join(outdir, 'src/ebpf.rs'))
@@ -120,7 +127,7 @@ def generate(repo, outdir):
     for name, val in sorted(ops.items(), key=lambda x: x[1]):
         if name == 'TAIL_CALL':
             continue
-        hs.append('\n#[kani::proof]\n#[kani::unwind(14)]\nfn clif_%s() { run_clif(%#04x); } // ebpf::%s\n' % (name.lower(), val, name))
+        hs.append('\n#[kani::proof]\n#[kani::unwind(%d)]\nfn clif_%s() { run_clif(%#04x); } // ebpf::%s\n' % (28 if name == 'CALL' else 14, name.lower(), val, name))  # CALL renders and compares symbol names (24 bytes)
         harnesses.append(dict(name='clif_' + name.lower(), kind='contract', opcode=name))
     harnesses.append(dict(name='clif_env_precondition_satisfiable', kind='cover'))
     harnesses.append(dict(name='clif_prelude', kind='contract'))
